@@ -514,8 +514,8 @@ def _do(C, st, act, n):
             view(r)
         elif act == "copy":
             r.copy("a", "c%d" % n)
-    except (ValueError, KeyError, OSError, TypeError):
-        pass
+    except (ValueError, KeyError, OSError, TypeError, AssertionError):
+        pass  # any refusal is fine here: only the frame condition is judged
 
 
 def frames(sit: int, a1: int, a2: int, a3: int, a4: int) -> bool:
